@@ -27,9 +27,21 @@ MANIFEST = {
 P = 2147483647
 
 
+_H = {"internals": True, "notes": []}
+INTERNAL_OPS = {"material"}
+
+
 def harness():
     srcs = [s for s in ALL_CORE_SOURCES if s != "src/core/Node.cpp"]
-    return build_harness("kex_h", "harness/kex_h.cpp", srcs, libs=["-lcurl", "-lpthread"])
+    _H["notes"] = []
+    exe, _H["internals"] = build_harness_with_fallback(
+        lambda defines: build_harness("kex_h", "harness/kex_h.cpp", srcs, libs=["-lcurl", "-lpthread"], defines=defines),
+        _H["notes"])
+    if not _H["internals"]:
+        _H["notes"].append("C12 without harness internals: make_handshake_material is not called directly (op `material` dropped), so the "
+                           "exact key-material bytes are observed only through the session keys of real handshakes; key equality on both "
+                           "sides, key = derived from the current public keys, acceptance and DH agreement are still judged on every line")
+    return exe
 
 
 def extract():
@@ -160,6 +172,21 @@ def gen_ident(rng) -> Case:
 
 
 def generate(ctx, budget):
+    out = _generate(ctx, budget)
+    for n in _H["notes"]:
+        if n not in ctx.notes:
+            ctx.notes.append(n)
+    if _H["internals"]:
+        return out
+    kept = []
+    for c in out:
+        ops = [op for op in c.ops if op.split(" ", 1)[0] not in INTERNAL_OPS]
+        if ops:
+            kept.append(Case(ops=ops, tag=c.tag))
+    return kept
+
+
+def _generate(ctx, budget):
     rng = ctx.rng
     out = []
     for i in range(budget):
